@@ -203,11 +203,51 @@ theorem c19_azi_ra_involution (len off azi mjd : ℝ) (h0 : 0 ≤ azi) (h1 : azi
 
 example : (0 : ℝ) ≤ 1 ∧ (1 : ℝ) < 2 * π := ⟨by norm_num, by linarith [two_le_pi]⟩
 
-/-- the involution for the constants found in the current source -/
-theorem c19_azi_ra_involution_for_current_source (azi mjd : ℝ) (h0 : 0 ≤ azi) (h1 : azi < 2 * π) :
-    raToAzi Gen.C19.siderealLength Gen.C19.siderealOffset
-      (aziToRa Gen.C19.siderealLength Gen.C19.siderealOffset azi mjd) mjd = azi :=
-  (c19_azi_ra_involution _ _ azi mjd h0 h1).1
+/-! The involution alone is also satisfied by `a ↦ a mod 2π`; the next statements pin how azimuth
+and time enter. -/
+
+/-- **azimuth enters with slope −1**: two azimuths at the same time differ in right ascension by
+the opposite amount (mod 2π) -/
+theorem c19_azi_ra_shift (len off a₁ a₂ mjd : ℝ) :
+    modF (aziToRa len off a₁ mjd - aziToRa len off a₂ mjd) twoPi = modF (a₂ - a₁) twoPi := by
+  rw [aziToRa_eq, aziToRa_eq]
+  set C := off + 2 * π * frac1 (mjd / len)
+  rw [modF_eq_sub (C - a₁), modF_eq_sub (C - a₂)]
+  have : C - a₁ - (⌊(C - a₁) / twoPi⌋ : ℤ) * twoPi - (C - a₂ - (⌊(C - a₂) / twoPi⌋ : ℤ) * twoPi)
+      = (a₂ - a₁) + ((⌊(C - a₂) / twoPi⌋ - ⌊(C - a₁) / twoPi⌋ : ℤ) : ℝ) * twoPi := by
+    push_cast; ring
+  rw [this, modF_add_int_mul twoPi_pos.ne']
+
+/-- **local sidereal time**: right ascension plus azimuth is the sidereal angle
+`off + 2π·frac(mjd/len)` (mod 2π) -/
+theorem c19_azi_ra_lst (len off azi mjd : ℝ) :
+    modF (aziToRa len off azi mjd + azi) twoPi = modF (off + 2 * π * frac1 (mjd / len)) twoPi := by
+  rw [aziToRa_eq]
+  set C := off + 2 * π * frac1 (mjd / len)
+  rw [modF_eq_sub (C - azi)]
+  have : C - azi - (⌊(C - azi) / twoPi⌋ : ℤ) * twoPi + azi = C + ((-⌊(C - azi) / twoPi⌋ : ℤ) : ℝ) * twoPi := by
+    push_cast; ring
+  rw [this, modF_add_int_mul twoPi_pos.ne']
+
+/-- **sidereal period**: `k` sidereal days later the same azimuth points to the same right
+ascension (this needs `len ≠ 0`) -/
+theorem c19_azi_ra_sidereal_period (len off azi mjd : ℝ) (hl : len ≠ 0) (k : ℤ) :
+    aziToRa len off azi (mjd + k * len) = aziToRa len off azi mjd := by
+  have : frac1 ((mjd + k * len) / len) = frac1 (mjd / len) := by
+    have e : (mjd + k * len) / len = mjd / len + k := by field_simp
+    simp only [frac1, floor_def, e, Int.floor_add_intCast]
+    push_cast; ring
+  simp only [aziToRa, this]
+
+theorem c19_sidereal_length_ne_zero : (Gen.C19.siderealLength : ℝ) ≠ 0 := by
+  unfold Gen.C19.siderealLength; norm_num
+
+/-- the period statement for the constants of the current source: breaks when `_sidereal_length`
+is edited to 0 -/
+theorem c19_azi_ra_sidereal_period_for_current_source (azi mjd : ℝ) (k : ℤ) :
+    aziToRa Gen.C19.siderealLength Gen.C19.siderealOffset azi (mjd + k * Gen.C19.siderealLength)
+      = aziToRa Gen.C19.siderealLength Gen.C19.siderealOffset azi mjd :=
+  c19_azi_ra_sidereal_period _ _ _ _ c19_sidereal_length_ne_zero k
 
 /-! ## canonical ranges -/
 
@@ -221,6 +261,112 @@ theorem c19_ra_range :
   refine ⟨fun _ _ _ _ => raOk_modF _, fun _ _ _ _ _ => raOk_modF _, fun _ _ _ _ => raOk_modF _,
     fun _ _ _ _ _ _ => raOk_modF _, fun _ _ _ _ _ _ _ => raOk_modF _⟩
 
+/-! ### NaN freedom: the domain of `arcsin` / `arccos` (numpy: NaN outside `[-1, 1]`)
+
+`Real.arcsin/arccos` are clamped outside `[-1, 1]`, so range statements about the total functions say
+nothing about NaN.  The statements below are about the `…D` functions (`none` = NaN) that the driver
+executes, and they quantify over **arbitrary** intermediate values — i.e. whatever a rounding error
+of any size makes of the haversine argument, of `cos α`, of the rotated vector — so it is the
+clipping statements of the code that carry the proof (without them the statements are false:
+`c19_sepOfXUnclipped_not_total`, `c19_offsetBy_not_total`). -/
+
+/-- `angular_separation`: from **any** value `x` of the haversine argument on, the result is a
+number (not NaN) in `[0, π]` -/
+theorem c19_angSep_total_any_x (x : ℝ) : ∃ p, sepOfX x = some p ∧ 0 ≤ p ∧ p ≤ π := by
+  have hc : 0 ≤ clip01 x ∧ clip01 x ≤ 1 := by
+    unfold clip01; split_ifs with h1 h2
+    · norm_num
+    · norm_num
+    · exact ⟨not_lt.mp h1, not_lt.mp h2⟩
+  have hs0 : 0 ≤ √(clip01 x) := sqrt_nonneg _
+  have hs1 : √(clip01 x) ≤ 1 := by
+    rw [show (1 : ℝ) = √1 by simp]; exact sqrt_le_sqrt hc.2
+  refine ⟨2 * arcsin (√(clip01 x)), ?_, ?_, ?_⟩
+  · simp only [sepOfX, asinD, TranscReal.sqrt_def, TranscReal.asin_def]
+    rw [if_neg (by linarith), if_neg (by linarith)]; rfl
+  · have := arcsin_nonneg.mpr hs0; linarith
+  · have := arcsin_le_pi_div_two (√(clip01 x)); linarith
+
+/-- without the clipping statements the tail of `angular_separation` is NaN for `x = 4` -/
+theorem c19_sepOfXUnclipped_not_total : ¬ ∀ x : ℝ, ∃ p, sepOfXUnclipped x = some p := by
+  intro h
+  obtain ⟨p, hp⟩ := h 4
+  have h2 : √(4 : ℝ) = 2 := by
+    rw [show (4 : ℝ) = 2 ^ 2 by norm_num]; exact sqrt_sq (by norm_num)
+  simp [sepOfXUnclipped, asinD, h2] at hp
+
+/-- over ℝ (exact arithmetic) the NaN-aware separation is the total one -/
+theorem c19_angSepD_eq (ra1 dec1 ra2 dec2 : ℝ) :
+    angSepD ra1 dec1 ra2 dec2 = some (angSep ra1 dec1 ra2 dec2) := by
+  have hc : 0 ≤ clip01 (havX ra1 dec1 ra2 dec2) ∧ clip01 (havX ra1 dec1 ra2 dec2) ≤ 1 := by
+    rw [clip01_of_mem (havX_nonneg ..) (havX_le_one ..)]; exact ⟨havX_nonneg .., havX_le_one ..⟩
+  have hs0 : 0 ≤ √(clip01 (havX ra1 dec1 ra2 dec2)) := sqrt_nonneg _
+  have hs1 : √(clip01 (havX ra1 dec1 ra2 dec2)) ≤ 1 := by
+    rw [show (1 : ℝ) = √1 by simp]; exact sqrt_le_sqrt hc.2
+  simp only [angSepD, sepOfX, asinD, angSep, TranscReal.sqrt_def]
+  rw [if_neg (by linarith), if_neg (by linarith)]; rfl
+
+/-- `rotate_spherical_vector`: `alpha = arccos(cos_alpha)` is a number for **any** computed
+`cos_alpha`, because of the two clipping statements -/
+theorem c19_alpha_total_any_c (c : ℝ) : ∃ a, alphaOfCos c = some a ∧ 0 ≤ a ∧ a ≤ π := by
+  obtain ⟨h0, h1⟩ := clipPM1_mem c
+  refine ⟨arccos (clipPM1 c), ?_, arccos_nonneg _, arccos_le_pi _⟩
+  simp only [alphaOfCos, acosD, TranscReal.acos_def]
+  rw [if_neg (by linarith), if_neg (by linarith)]
+
+/-- `rotate_spherical_vector`: for **any** rotated vector `v` (unit or not — rounding, even a wrong
+rotation matrix) the extracted `(ra, dec)` is a pair of numbers in the canonical ranges -/
+theorem c19_vecToRaDec_total (v : V3 ℝ) :
+    ∃ r d, vecToRaDecD v = some (r, d) ∧ RaOk r ∧ DecOk d := by
+  obtain ⟨h0, h1⟩ := clipPM1_mem v.z
+  refine ⟨(vecToRaDec v).1, arcsin (clipPM1 v.z), ?_, raOk_modF _, decOk_arcsin _⟩
+  simp only [vecToRaDecD, asinD, TranscReal.asin_def]
+  rw [if_neg (by linarith), if_neg (by linarith)]; rfl
+
+theorem vecToRaDecD_eq (v : V3 ℝ) : vecToRaDecD v = some (vecToRaDec v) := by
+  obtain ⟨h0, h1⟩ := clipPM1_mem v.z
+  simp only [vecToRaDecD, asinD]
+  rw [if_neg (by linarith), if_neg (by linarith)]; rfl
+
+theorem alphaOfCos_eq (c : ℝ) : alphaOfCos c = some (Transc.acos (clipPM1 c)) := by
+  obtain ⟨h0, h1⟩ := clipPM1_mem c
+  simp only [alphaOfCos, acosD]
+  rw [if_neg (by linarith), if_neg (by linarith)]
+
+theorem rotVecD_eq_some (ra1 dec1 ra2 dec2 ra3 dec3 : ℝ) :
+    rotVecD ra1 dec1 ra2 dec2 ra3 dec3 = some (rotVec ra1 dec1 ra2 dec2 ra3 dec3) := by
+  simp only [rotVecD, alphaOfCos_eq, Option.map_some]; rfl
+
+/-- hence the whole function never returns NaN, and over ℝ agrees with the total model -/
+theorem c19_rotateSphericalVectorD_eq (ra1 dec1 ra2 dec2 ra3 dec3 : ℝ) :
+    rotateSphericalVectorD ra1 dec1 ra2 dec2 ra3 dec3
+      = some (rotateSphericalVector ra1 dec1 ra2 dec2 ra3 dec3) := by
+  simp only [rotateSphericalVectorD, rotVecD_eq_some, Option.bind_some, vecToRaDecD_eq]; rfl
+
+/-- `psi_to_dec_and_ra`: for **any** Cartesian components (unit or not) the extracted declination
+and right ascension are in the canonical ranges; `arctan2` has no restricted domain, so there is
+nothing that could become NaN -/
+theorem c19_xyzToDecRa_any (v : V3 ℝ) : DecOk (xyzToDecRa v).1 ∧ RaOk (xyzToDecRa v).2 := by
+  refine ⟨?_, raOk_modF _⟩
+  simp only [xyzToDecRa, atan2_def, TranscReal.sqrt_def]
+  exact abs_atan2_le_of_nonneg _ _ (sqrt_nonneg _)
+
+/-- astropy's `offset_by` takes `arcsin(cos_b)` **without** clipping: it is not total in the computed
+`cos_b` (`cos_b = 1 + 2⁻⁵²` gives NaN) — the open finding `nan-at-pole` as a theorem … -/
+theorem c19_offsetBy_not_total : ¬ ∀ cb : ℝ, ∃ d, offsetLatOfCosB cb = some d := by
+  intro h
+  obtain ⟨d, hd⟩ := h 2
+  simp [offsetLatOfCosB, asinD] at hd
+
+/-- … while in exact arithmetic `cos_b ∈ [-1, 1]`, so over ℝ the relocation is total and equals the
+total model -/
+theorem c19_relocateD_eq (eps a b c d e f : ℝ) :
+    relocateD eps a b c d e f = some (relocate eps a b c d e f) := by
+  obtain ⟨h0, h1⟩ := offsetCosB_mem b (posAngle c d e f) (vincenty c d e f)
+  simp only [relocateD, offsetByD, offsetLatOfCosB, asinD]
+  rw [if_neg (by linarith), if_neg (by linarith)]
+  rfl
+
 /-- every declination produced by `psi_to_dec_and_ra`, `rotate_spherical_vector` and
 `rotate_signal_events_on_sphere` lies in `[-π/2, π/2]` -/
 theorem c19_dec_range_generated :
@@ -229,10 +375,7 @@ theorem c19_dec_range_generated :
     (∀ eps a b c d e f : ℝ, DecOk (relocate eps a b c d e f).2) := by
   refine ⟨?_, fun _ _ _ _ _ _ => decOk_arcsin _, fun _ _ _ _ _ _ _ => decOk_arcsin _⟩
   intro srcDec srcRa psi t
-  simp only [psiToDecRa, TranscReal.acos_def, TranscReal.pi_def]
-  constructor
-  · linarith [arccos_le_pi (clipPM1 (psiCircle srcDec srcRa psi t).z)]
-  · linarith [arccos_nonneg (clipPM1 (psiCircle srcDec srcRa psi t).z)]
+  exact (c19_xyzToDecRa_any _).1
 
 /-- the full claim for `hor_to_equ_transform`: a physical zenith angle gives a canonical declination -/
 def c19_dec_range_statement : Prop :=
@@ -327,15 +470,8 @@ theorem c19_relocate_preserves_sep {eps : ℝ} (heps : 0 < eps)
 example : (1e-12 : ℝ) ≤ cos 0 ∨ cos (0 : ℝ) = 0 := by left; rw [cos_zero]; norm_num
 example : (1e-12 : ℝ) ≤ cos (π / 2) ∨ cos (π / 2) = 0 := by right; exact cos_pi_div_two
 
-/-- the full claim for the relocation (no restriction on the source declination) -/
-def c19_relocate_preserves_sep_statement : Prop :=
-  ∀ srcRa srcDec trueRa trueDec recoRa recoDec : ℝ,
-    angSep srcRa srcDec (relocate Gen.C19.poleEps srcRa srcDec trueRa trueDec recoRa recoDec).1
-      (relocate Gen.C19.poleEps srcRa srcDec trueRa trueDec recoRa recoDec).2
-      = angSep trueRa trueDec recoRa recoDec
-
 /-- the relocation theorem for the pole threshold of the current astropy source -/
-theorem c19_relocate_preserves_sep_partial
+theorem c19_relocate_preserves_sep_for_current_source
     (srcRa srcDec trueRa trueDec recoRa recoDec : ℝ)
     (h : (Gen.C19.poleEps : ℝ) ≤ cos srcDec ∨ cos srcDec = 0) :
     angSep srcRa srcDec (relocate Gen.C19.poleEps srcRa srcDec trueRa trueDec recoRa recoDec).1
@@ -368,4 +504,46 @@ theorem c19_relocate_cos_sep_bound_for_current_source
 
 example : (0 : ℝ) ≤ cos (π / 2 - 1e-13) := by
   rw [cos_pi_div_two_sub]; exact sin_nonneg_of_nonneg_of_le_pi (by norm_num) (by linarith [two_le_pi])
+
+/-- **radian bound for every canonical source declination, polar cap included** (a float64
+"pole" `δ = ±fl(π/2)` has `cos δ = 6e-17`, i.e. it is always *inside* astropy's cap, where the exact
+theorem does not apply): the separation changes by at most twice the distance of the source from
+the pole.  Proof: the latitude of `offset_by` does not depend on the threshold; compare with the
+regular branch (exact) and go through the pole with the triangle inequality twice.  Inside the cap
+`π/2 − |δ| < 1.0000001e-12`, so the bound is 2e-12 rad. -/
+theorem c19_relocate_sep_bound {eps : ℝ} (heps : 0 < eps)
+    (sRa sDec tRa tDec rRa rDec : ℝ) (hd : DecOk sDec) :
+    |angSep sRa sDec (relocate eps sRa sDec tRa tDec rRa rDec).1 (relocate eps sRa sDec tRa tDec rRa rDec).2
+        - angSep tRa tDec rRa rDec| ≤ 2 * (π / 2 - |sDec|) := by
+  have hcos0 : 0 ≤ cos sDec := cos_nonneg_of_neg_pi_div_two_le_of_le hd.1 hd.2
+  have habs : |sDec| ≤ π / 2 := abs_le.mpr hd
+  rcases hcos0.eq_or_lt with h0 | hpos
+  · rw [c19_relocate_preserves_sep heps _ _ _ _ _ _ (Or.inr h0.symm)]
+    simp; linarith
+  · -- the regular branch (threshold = cos δ itself) is exact
+    set O := relocate eps sRa sDec tRa tDec rRa rDec with hO
+    set O' := relocate (cos sDec) sRa sDec tRa tDec rRa rDec with hO'
+    have hex : angSep sRa sDec O'.1 O'.2 = angSep tRa tDec rRa rDec :=
+      c19_relocate_preserves_sep hpos _ _ _ _ _ _ (Or.inl le_rfl)
+    have hlat : O.2 = O'.2 := rfl
+    -- the pole on the side of the source
+    obtain ⟨p, hp0, hpS⟩ : ∃ p : ℝ, cos p = 0 ∧ angSep sRa sDec 0 p = π / 2 - |sDec| := by
+      by_cases hs : 0 ≤ sDec
+      · refine ⟨π / 2, cos_pi_div_two, ?_⟩
+        rw [c19_symm, angSep_eq_arccos, dotRD_pole _ _ _ _ cos_pi_div_two, sin_pi_div_two, one_mul,
+          arccos_eq_pi_div_two_sub_arcsin, arcsin_sin hd.1 hd.2, abs_of_nonneg hs]
+      · have hs' : sDec < 0 := not_le.mp hs
+        refine ⟨-(π / 2), by rw [cos_neg, cos_pi_div_two], ?_⟩
+        rw [c19_symm, angSep_eq_arccos, dotRD_pole _ _ _ _ (by rw [cos_neg, cos_pi_div_two]), sin_neg,
+          sin_pi_div_two, neg_one_mul, ← sin_neg, arccos_eq_pi_div_two_sub_arcsin,
+          arcsin_sin (by linarith [hd.2]) (by linarith [hd.1]), abs_of_neg hs']
+    have hPO : angSep 0 p O.1 O.2 = angSep 0 p O'.1 O'.2 := by
+      rw [angSep_eq_arccos, angSep_eq_arccos, dotRD_pole _ _ _ _ hp0, dotRD_pole _ _ _ _ hp0, hlat]
+    have t1 := c19_triangle sRa sDec 0 p O.1 O.2
+    have t2 := c19_triangle 0 p sRa sDec O'.1 O'.2
+    have t3 := c19_triangle sRa sDec 0 p O'.1 O'.2
+    have t4 := c19_triangle 0 p sRa sDec O.1 O.2
+    have hsym : angSep 0 p sRa sDec = angSep sRa sDec 0 p := c19_symm ..
+    rw [abs_le]
+    constructor <;> linarith
 
